@@ -157,24 +157,32 @@ type zzDeclared struct {
 // names distinct and valid) and registers exactly the declared (verb, path) set, each with the
 // declared handler and inside the groups of its path prefixes.
 func ZZ_C16_H1() {
-	zzC16(zz.Range("routes", 1, zz.Param("K", 2)), zz.Param("D", 2), zz.Param("SEGS", len(zzSegs)), 3)
+	zzC16(zz.Range("routes", 1, zz.Param("K", 2)), zz.Param("D", 2), zzSegs[:zz.Param("SEGS", len(zzSegs))], 3)
 }
 
 // ZZ_C16_H2: the same with exactly three routes over a smaller alphabet (a third route is what
 // it takes to insert between two existing siblings and to revisit a group that was created for
 // another verb).
 func ZZ_C16_H2() {
-	zzC16(3, zz.Param("D", 2), zz.Param("SEGS", 2), zz.Param("VERBS", 2))
+	zzC16(3, zz.Param("D", 2), zzSegs[:zz.Param("SEGS", 2)], zz.Param("VERBS", 2))
 }
 
-func zzC16(k, maxDepth, nsegs, nverbs int) {
+// ZZ_C16_H7: two routes over segments that differ only in letter case (a / A, :id / :ID): hertz
+// matches paths case-sensitively, so /a/x and /A/y are two groups and each route is registered
+// under its own spelling.
+func ZZ_C16_H7() {
+	zzC16(2, zz.Param("D", 2), []string{"a", "A", ":id", ":ID", "b"}, zz.Param("VERBS", 1))
+}
+
+func zzC16(k, maxDepth int, alphabet []string, nverbs int) {
+	nsegs := len(alphabet)
 	var decl []zzDeclared
 	for i := 0; i < k; i++ {
 		verb := []string{"GET", "POST", "Any"}[zz.Choose("verb", nverbs)]
 		depth := zz.Range("depth", 0, maxDepth)
 		var segs []string
 		for j := 0; j < depth; j++ {
-			segs = append(segs, zzSegs[zz.Choose("segment", nsegs)])
+			segs = append(segs, alphabet[zz.Choose("segment", nsegs)])
 		}
 		path := "/" + strings.Join(segs, "/")
 		if depth > 0 && zz.Choose("trailingSlash", 2) == 1 {
@@ -254,6 +262,7 @@ func zzC16(k, maxDepth, nsegs, nverbs int) {
 			allFound = false
 		}
 	}
+	zz.Cover("first-segments-differ-in-case-only", len(decl) == 2 && len(decl[0].segs) > 0 && len(decl[1].segs) > 0 && decl[0].segs[0] != decl[1].segs[0] && strings.EqualFold(decl[0].segs[0], decl[1].segs[0]))
 	zz.Cover("shared-prefix", len(decl) == 2 && len(decl[0].segs) > 0 && len(decl[1].segs) > 0 && decl[0].segs[0] == decl[1].segs[0])
 	zz.Assert("each-declared-route-registered-once-with-its-handler", allFound)
 	zz.Assert("each-route-inside-the-groups-of-its-path-prefixes", wrapped)
